@@ -76,6 +76,8 @@ Record InvS (s : state) : Prop := {
   i_committed : forall t, post_commit (pcs s t) = true -> committed s = true;
   i_applied : applied s = true -> committed s = true;
   i_got : forall t c, pcs s t = Got c -> arg s t = c;
+  i_wait : forall t, pcs s t = Wait -> In t (batch s) \/ In t (map fst (pending s));
+  i_token_or_main : items s <> [] -> token s = true \/ exists t, is_main (pcs s t) = true;
   i_pool : exists hs, NoDup hs /\ (forall t, In t hs <-> holding (pcs s t) = true) /\
       match pool s with None => hs = [] | Some rc => rc = length hs /\ hs <> [] end
 }.
@@ -153,6 +155,20 @@ Proof.
     specialize (Hh t). rewrite H in Hh. discriminate.
 Qed.
 
+Lemma token_or_main_keep s t p :
+  is_main (pcs s t) = false \/ is_main p = true ->
+  token s = true \/ (exists t0, is_main (pcs s t0) = true) ->
+  token s = true \/ exists t0, is_main (upd (pcs s) t p t0) = true.
+Proof.
+  intros Hc [H|(t0 & H)]; auto. right. destruct (Nat.eq_dec t0 t) as [->|Hne].
+  - destruct Hc as [Hc|Hc]; [congruence|]. exists t. now rewrite upd_eq.
+  - exists t0. now rewrite upd_neq.
+Qed.
+
+Ltac tomS := solve [let Hx := fresh "Hx" in intro Hx; apply token_or_main_keep;
+  [first [left; match goal with Hq : pcs _ _ = _ |- _ => rewrite Hq; reflexivity end | right; reflexivity]
+  | match goal with Hi : _ <> [] -> _ \/ _ |- _ => apply Hi; exact Hx end]].
+
 Lemma stepS_get sg s t c s' : InvS s -> step sg s (EGet t c) = Some s' -> InvS s'.
 Proof.
   intros I H. simpl in H.
@@ -162,11 +178,9 @@ Proof.
   assert (Hnp : ~ In t (map fst (pending s))) by (apply not_in_pending; auto; rewrite Hpc; discriminate).
   destruct (pool s) as [rc|] eqn:Hpool; injection H as <-.
   + destruct I. constructor; simpl.
-    all: try solve [solveS t].
-    * intros t0 c0 Hin. assert (t0 <> t) by (intro; subst; eauto using in_fst).
-      rewrite !upd_neq by auto. auto.
-    * intros t0 c0 Hin. assert (t0 <> t) by (intro; subst; eauto using in_fst).
-      rewrite !upd_neq by auto. auto.
+    all: try solve [solveS t | tomS].
+    all: try solve [intros t0 c0 Hin; assert (t0 <> t) by (intro; subst; eauto using in_fst);
+                    rewrite !upd_neq by auto; auto].
     * destruct i_pool0 as (hs & Hnd & Hin & Hp). rewrite Hpool in Hp. destruct Hp as [-> Hp].
       exists (t :: hs). repeat split; try discriminate.
       -- constructor; auto. intro Hx. apply Hin in Hx. rewrite Hpc in Hx. discriminate.
@@ -180,6 +194,8 @@ Proof.
     all: try solve [solveS t].
     all: try solve [constructor].
     all: try solve [intros t0 Hx; tcase t0 t; [discriminate|]; try apply post_commit_main in Hx; rewrite Hnm in Hx; discriminate].
+    all: try solve [intro Hx; congruence].
+    all: try solve [intros t0 Hx; tcase t0 t; [discriminate|]; exfalso; specialize (Hh t0); rewrite Hx in Hh; discriminate].
     exists [t]. repeat split; try discriminate.
     -- constructor; [simpl; tauto|constructor].
     -- intros [<-|[]]. now rewrite upd_eq.
@@ -197,23 +213,28 @@ Proof.
   assert (Hne_pend : forall t0 c0, In (t0, c0) (pending s) -> t0 <> t) by (intros t0 c0 Hin ->; eauto using in_fst).
   destruct (committed s) eqn:Hc; injection H as <-.
   + destruct I. constructor; simpl.
-    all: try solve [solveS t | poolS t].
+    all: try solve [solveS t | poolS t | tomS].
     all: try solve [intros t0 c0 Hin; rewrite !upd_neq by eauto; auto].
+    all: try solve [intros t0 Hx; tcase t0 t; [right; apply in_map_fst_snoc; auto|];
+                    destruct (i_wait0 t0 Hx); [auto|right; apply in_map_fst_snoc; auto]].
     intros t0 c0 Hin. apply in_snoc in Hin. destruct Hin as [Hin|Hin].
     * rewrite !upd_neq by eauto. auto.
     * injection Hin as -> ->. rewrite upd_eq. auto.
   + destruct I. constructor; simpl.
     all: try solve [solveS t | poolS t].
-    * intros t0 c0 Hin. apply in_snoc in Hin. destruct Hin as [Hin|Hin].
-      -- rewrite !upd_neq by eauto. auto.
-      -- injection Hin as -> ->. rewrite upd_eq. auto.
-    * intros t0 c0 Hin. rewrite !upd_neq by eauto. destruct (i_pend0 t0 c0 Hin) as (A & B & C).
-      repeat split; auto. unfold batch. simpl. rewrite in_map_fst_snoc. intros [Hx|Hx]; [auto|].
-      subst. eapply Hne_pend; eauto.
-    * intros t0 Hx. tcase t0 t; [discriminate|]. destruct (i_main_in0 t0 Hx) as [A B]. split.
-      -- unfold batch. simpl. rewrite in_map_fst_snoc. auto.
-      -- unfold batch in A. destruct (items s); [destruct A|]. simpl. auto.
-    * intro Hx. exfalso. eapply snoc_not_nil; eauto.
+    all: try solve [intros t0 c0 Hin; apply in_snoc in Hin; destruct Hin as [Hin|Hin];
+                    [rewrite !upd_neq by eauto; auto | injection Hin as -> ->; rewrite upd_eq; auto]].
+    all: try solve [intros t0 c0 Hin; rewrite !upd_neq by eauto; destruct (i_pend0 t0 c0 Hin) as (A & B & C);
+                    repeat split; auto; unfold batch; simpl; rewrite in_map_fst_snoc; intros [Hx|Hx]; [auto|];
+                    subst; eapply Hne_pend; eauto].
+    all: try solve [intros t0 Hx; tcase t0 t; [discriminate|]; destruct (i_main_in0 t0 Hx) as [A B]; split;
+                    [unfold batch; simpl; rewrite in_map_fst_snoc; auto
+                    |unfold batch in A; destruct (items s); [destruct A|]; simpl; auto]].
+    all: try solve [intro Hx; exfalso; eapply snoc_not_nil; eauto].
+    all: try solve [intros t0 Hx; unfold batch; simpl; rewrite in_map_fst_snoc; tcase t0 t; [auto|];
+                    destruct (i_wait0 t0 Hx); auto].
+    intros _. destruct (items s) as [|it its] eqn:Ei; [now left|]. simpl.
+    apply token_or_main_keep; [left; rewrite Hpc; reflexivity|]. apply i_token_or_main0. discriminate.
 Qed.
 
 (* a step of the main thread that stays main: only its pc, the committed flag,
@@ -237,6 +258,8 @@ Proof.
   all: try solve [intros t1 t2 H1 H2; tcase t1 t; tcase t2 t; auto; symmetry; auto].
   all: try solve [intros t0 Hx; tcase t0 t; auto; apply Hc1; eapply i_committed0; eauto].
   all: try solve [intros t0 c0 Hx; tcase t0 t; [rewrite Hx in Hp; discriminate | eauto]].
+  all: try solve [intros t0 Hx; tcase t0 t; [rewrite Hx in Hp; discriminate | auto]].
+  all: try solve [intros _; right; exists t; rewrite upd_eq; exact Hp].
   destruct i_pool0 as (hs & A & B & C); exists hs; repeat split; auto.
   - intro Hx; tcase t0 t; [now apply main_holding|]; now apply B.
   - intro Hx; apply B; tcase t0 t; [now apply main_holding|auto].
@@ -284,6 +307,8 @@ Proof.
   destruct (i_token s I Htok) as [Hni Hcm].
   destruct I. constructor; simpl.
   all: try solve [solveS t | poolS t].
+  all: try solve [intros _; right; exists t; rewrite upd_eq; reflexivity].
+  all: try solve [intros t0 Hx; tcase t0 t; [discriminate|auto]].
   - intros t0 c0 Hin. destruct (i_items0 t0 c0 Hin) as [A B]. split; auto. tcase t0 t; auto.
   - intros t0 c0 Hin. destruct (i_pend0 t0 c0 Hin) as (A & B & C). repeat split; auto.
     tcase t0 t; auto. tauto.
@@ -321,8 +346,9 @@ Proof.
   assert (Hne_items : forall t0 c0, In (t0, c0) (items s) -> t0 <> t) by (intros t0 c0 Hin ->; eauto using in_fst).
   assert (Hne_pend : forall t0 c0, In (t0, c0) (pending s) -> t0 <> t) by (intros t0 c0 Hin ->; eauto using in_fst).
   destruct I. constructor; simpl.
-  all: try solve [solveS t].
+  all: try solve [solveS t | tomS].
   all: try solve [intros t0 c0 Hin; rewrite !upd_neq by eauto; auto].
+  all: try solve [intros t0 Hx; tcase t0 t; [discriminate|auto]].
   destruct i_pool0 as (hs & Hnd & Hin & Hp). rewrite Hpool in Hp. destruct Hp as [-> Hne0].
   assert (Ht : In t hs) by (apply Hin; rewrite Hpc; reflexivity).
   destruct (remove_facts hs t Hnd Ht) as (A & B & C).
@@ -377,6 +403,9 @@ Proof.
   - discriminate.
   - intros t0 c0 Hx. destruct (complete_pcs_cases s t r t0) as [[_ E]|(_ & _ & E)]; rewrite E in Hx; [discriminate|].
     eapply i_got; eauto.
+  - intros x Hx. destruct (complete_pcs_cases s t r x) as [[_ E]|(A & B & E)]; rewrite E in Hx; [discriminate|].
+    destruct (i_wait s I x Hx) as [Hw|Hw]; [tauto|]. left. exact Hw.
+  - intro Hx. left. destruct (pending s); [congruence|reflexivity].
   - destruct (i_pool s I) as (hs & A & B & C). exists hs. repeat split; auto.
     + intro Hx. apply B in Hx. destruct (complete_pcs_cases s t r t0) as [[_ E]|(_ & _ & E)]; rewrite E; auto.
     + intro Hx. apply B. destruct (complete_pcs_cases s t r t0) as [[[E0|E0] E]|(_ & _ & E)].
